@@ -103,7 +103,8 @@ structure St where
 inductive Act where
   | dial (a : Addr)
   | listWatch (a : Addr)
-  | role (a : Addr)
+  /-- a ROLE command on a connection to `a`; `ans` (ghost) is the reply it got -/
+  | role (a : Addr) (ans : RoleAns)
   | close (a : Addr)
   deriving DecidableEq, Repr
 
@@ -157,16 +158,16 @@ def switchTarget (s : St) (w : World) (addr : Addr) (isMaster : Bool) : St × Wo
   match roleMatches ans want with
   | none =>
     -- `target.Close()`: if the target was the stored connection, that one is now closed
-    (if dialed then s else closeStored s isMaster ans, w.popRole addr, pre ++ [.role addr, .close addr], some .roleErr)
+    (if dialed then s else closeStored s isMaster ans, w.popRole addr, pre ++ [.role addr ans, .close addr], some .roleErr)
   | some false =>
-    (if dialed then s else closeStored s isMaster ans, w.popRole addr, pre ++ [.role addr, .close addr], some .wrongRole)
+    (if dialed then s else closeStored s isMaster ans, w.popRole addr, pre ++ [.role addr ans, .close addr], some .wrongRole)
   | some true =>
     -- store; the previous connection is closed unless it is the same object
     let closeOld : List Act :=
       match cur with
       | some c => if dialed then [.close c.addr] else []
       | none => []
-    (install s addr isMaster ans, w.popRole addr, pre ++ [.role addr] ++ closeOld, none)
+    (install s addr isMaster ans, w.popRole addr, pre ++ [.role addr ans] ++ closeOld, none)
 
 /-- `pickReplica`: the first replica without `s-down-time` (the real code picks a random eligible one;
     the suite offers at most one) -/
